@@ -11,13 +11,16 @@
 (* a tuple on which the REAL CODE breaks the law: Report prints it.        *)
 (*                                                                         *)
 (* TABLE = json file  { pool: [abstract value], eq: [[0|1|9]],             *)
-(*                      cmp: [[-1|0|1|9]], hash: [class number] }          *)
+(*                      cmp: [[-1|0|1|9]], hash: [class number],           *)
+(*                      tri: [1|0] takes part in the triple laws }         *)
 (***************************************************************************)
 EXTENDS ValueOrder, Json, IOUtils
 
 T == ndJsonDeserialize(IOEnv.TABLE)[1]
 NV == Len(T.pool)
 Ix == 1..NV
+\* the elements the triple laws range over (T.tri: 1 / 0; all of them in the thorough tier)
+TriIx == {a \in Ix : T.tri[a] = 1}
 CONSTANT Triples      \* FALSE: only the element and pair laws (used by --replay of a pair)
 
 \* observed
@@ -53,16 +56,16 @@ EvalCmpAntisymmetric == Fresh /\ \E b \in Ix : LET a == A1 IN Eval("CmpAntisymme
 EvalCmpEqualIffEq == Fresh /\ \E b \in Ix : LET a == A1 IN Eval("CmpEqualIffEq", <<a, b>>, CmpEqualIffEq(EqT, CmpT, a, b), CmpEqualIffEq(EqMi, CmpMi, a, b))
 \* the triple laws, split so that TLC's per-action coverage counts the non-degenerate instances
 Distinct3(a, b, c) == a # b /\ b # c /\ a # c
-EvalEqTransitive == Fresh /\ Triples /\ \E b, c \in Ix : LET a == A1 IN
+EvalEqTransitive == Fresh /\ Triples /\ A1 \in TriIx /\ \E b, c \in TriIx : LET a == A1 IN
     /\ Distinct3(a, b, c) /\ EqTransitivePremise(EqT, a, b, c)
     /\ Eval("EqTransitive", <<a, b, c>>, EqTransitive(EqT, a, b, c), EqTransitive(EqMi, a, b, c))
-EvalEqTransitiveRepeated == Fresh /\ Triples /\ \E b, c \in Ix : LET a == A1 IN
+EvalEqTransitiveRepeated == Fresh /\ Triples /\ A1 \in TriIx /\ \E b, c \in TriIx : LET a == A1 IN
     /\ ~Distinct3(a, b, c) /\ EqTransitivePremise(EqT, a, b, c)
     /\ Eval("EqTransitive", <<a, b, c>>, EqTransitive(EqT, a, b, c), EqTransitive(EqMi, a, b, c))
-EvalCmpTransitive == Fresh /\ Triples /\ \E b, c \in Ix : LET a == A1 IN
+EvalCmpTransitive == Fresh /\ Triples /\ A1 \in TriIx /\ \E b, c \in TriIx : LET a == A1 IN
     /\ Distinct3(a, b, c) /\ CmpTransitivePremise(CmpT, a, b, c)
     /\ Eval("CmpTransitive", <<a, b, c>>, CmpTransitive(CmpT, a, b, c), CmpTransitive(CmpMi, a, b, c))
-EvalCmpTransitiveRepeated == Fresh /\ Triples /\ \E b, c \in Ix : LET a == A1 IN
+EvalCmpTransitiveRepeated == Fresh /\ Triples /\ A1 \in TriIx /\ \E b, c \in TriIx : LET a == A1 IN
     /\ ~Distinct3(a, b, c) /\ CmpTransitivePremise(CmpT, a, b, c)
     /\ Eval("CmpTransitive", <<a, b, c>>, CmpTransitive(CmpT, a, b, c), CmpTransitive(CmpMi, a, b, c))
 \* binding of M to the code, cell by cell (a difference is MODEL-DRIFT, never an alarm)
